@@ -66,6 +66,8 @@ def trouble_values(c):
             out.append((k, datetime.datetime(2024, 2, 29, 23, 59, 59, 999600, tzinfo=tz(m))))
         out.append(("carry-year", datetime.datetime(1999, 12, 31, 23, 59, 59, 999999, tzinfo=tz(-30))))
         out.append(("sub-ms", datetime.datetime(2000, 1, 1, 0, 0, 0, 499, tzinfo=tz(330))))
+        out.append(("year-below-1000", datetime.datetime(999, 12, 31, 23, 59, 59, 999600, tzinfo=tz(-30))))
+        out.append(("year-below-1000", datetime.datetime(100, 6, 15, 12, 0, 0, 0, tzinfo=tz(0))))
         return out
     if t == "Time":
         out = []
